@@ -17,6 +17,8 @@
       * the decompositions as they are denote CRz(2φ) / CU1(2φ) (every real φ) and are proportional to the
         gate ONLY where e^{iπφ} = 1 resp. e^{2πiφ} = 1; for all three a concrete refutation at φ = 1/4.
   `zx_dagger`: the dagger of every generator (any arity, any phase) denotes the conjugate transpose;
+  `zx_dagger_scalar_value`: in the executable model, for every scalar VALUE (numeric types of the Python
+  data are not modelled), conjugating Gaussian dyadic rationals, the identity exactly on the real ones;
   `gate2zx_arity`: images are well typed with the gate's numbers of inputs and outputs.
   WHOLE CIRCUITS AND DIAGRAMS (Proofs/CircuitAlg.lean, CircuitCyc8.lean, CircuitTablesZX*.lean):
       * over EVERY commutative (star) ring: composition of well-typed ZX diagrams is the matrix product
@@ -37,6 +39,7 @@
 import Proofs.ZXTableFixed
 import Proofs.GatesComplex
 import Proofs.CircuitProps
+import Proofs.ZXScalarValue
 
 namespace DV.C16
 open DV DV.Gates
@@ -178,6 +181,22 @@ theorem zx_dagger_exact :
     ZXBox.h.dagger.sem.mat Cyc8.invSqrt2 = dagger (ZXBox.h.sem.mat Cyc8.invSqrt2) ∧
     ZXBox.swap.dagger.sem.mat Cyc8.invSqrt2 = dagger (ZXBox.swap.sem.mat Cyc8.invSqrt2) :=
   ⟨zx_dagger_table, zx_dagger_h_swap.1, zx_dagger_h_swap.2⟩
+
+/-- Scalars by VALUE (the numeric type of the Python datum — int, float, numpy.complex64, sympy
+    `1/2 + I/4`, … — is not modelled; the correspondence reads every datum to its exact value): in the
+    executable model the dagger of a scalar box denotes the conjugate transpose for EVERY value, it
+    turns the Gaussian dyadic rational `(a + c·i)/2^e` into `(a − c·i)/2^e`, and it is the same box
+    exactly when the value is real (zx.py:365). -/
+theorem zx_dagger_scalar_value :
+    (∀ s : Cyc8, (ZXBox.scalar s).dagger.sem.mat Cyc8.invSqrt2 =
+      dagger ((ZXBox.scalar s).sem.mat Cyc8.invSqrt2)) ∧
+    (∀ (a c : Int) (e : Nat), (ZXBox.scalar (gaussian a c e)).dagger = .scalar (gaussian a (-c) e)) ∧
+    (∀ (a c : Int) (e : Nat),
+      (ZXBox.scalar (gaussian a c e)).dagger = .scalar (gaussian a c e) ↔ c = 0) :=
+  ⟨scalar_dagger_sem, scalar_dagger_gaussian, scalar_dagger_gaussian_fixed_iff⟩
+
+example : (ZXBox.scalar (gaussian 1 1 2)).dagger = .scalar (gaussian 1 (-1) 2) ∧
+    (ZXBox.scalar (gaussian 1 1 2)).dagger ≠ .scalar (gaussian 1 1 2) := by decide
 
 /-! ### whole circuits and whole diagrams -/
 
